@@ -33,6 +33,7 @@ THEOREMS = ["JanetModel.Props.C09." + t for t in (
     "read_total_inbounds", "unmarshal_nil",                                              # decoder stays inside the buffer
     "asm_operand_roundtrip", "asm_operand_rejects",                                      # assembler operand fields (asm . disasm)
     "env_slot_test_is_bit", "env_walk_visits_set_bits",                                  # closure env written from a live frame
+    "roundtrip_code", "roundtrip_funcdef", "roundtrip_funcenv", "code_ids_agree", "roundtrip_code_top",   # functions, funcdefs, closure envs
 )]
 
 CODE_OBLIGATIONS = ["JanetModel.Marsh.CodeObligations." + t for t in (
@@ -1025,7 +1026,9 @@ def run(ctx):
         "data graphs are presented to the model in reference-number order with immutable values identified up to janet `=` (harness/C09/graph.janet: describe); "
         "the description is compared byte for byte through `marshal` and value for value through `unmarshal`",
         "janet_asserttype on decoded prototypes, NaN-key filtering and weak-reference GC are not in the model",
-        "functions, fibers, PEGs, channels, int64 boxes, asm/disasm: tested behaviourally, not proved",
+        "functions / funcdefs / closure environments (detached, early-detach): proved on the model Marsh/Code.lean (byte-for-byte correspondence with real marshal); "
+        "janet_verify, janet_asserttype, the lookup_defs_done test and fiber stack validation are outside that model",
+        "fibers, PEGs, channels, int64 boxes, whole-function asm/disasm: tested behaviourally, not proved",
     ])
 
 
